@@ -365,7 +365,8 @@ func (s *Sel) checkStopCoreTable(c *Ctx, ruleID, view string) {
 		if m, ok := l.Mem["status"]; ok && m.K == avConst && m.C.Kind() == constant.String && constant.StringVal(m.C) == terminating {
 			setTerm = true
 		}
-		obs := fmt.Sprintf("cancelRun=%v flag=%v terminal=%v terminating=%v signalled=%v", cancelRun, flag, term, setTerm, signalled)
+		retNil := len(l.Returns) == 1 && l.Returns[0].K == avNil
+		obs := fmt.Sprintf("cancelRun=%v flag=%v terminal=%v terminating=%v signalled=%v returnsNil=%v", cancelRun, flag, term, setTerm, signalled, retNil)
 		var exp []string
 		ok := true
 		need := func(name string, got, want bool) {
@@ -396,8 +397,12 @@ func (s *Sel) checkStopCoreTable(c *Ctx, ruleID, view string) {
 			case status == pending:
 				need("terminal", term, true)
 				need("signalled", signalled, false)
+				need("returnsNil", retNil, true)
 			default:
 				need("signalled", signalled, false)
+				// nothing was attempted, so nothing failed: an error here makes the
+				// shutdown skip the completion wait of an instance that may still be alive
+				need("returnsNil", retNil, true)
 			}
 		}
 		return ok, strings.Join(exp, " "), obs
@@ -409,4 +414,62 @@ func (s *Sel) checkStopCoreTable(c *Ctx, ruleID, view string) {
 		},
 		Judge: judge,
 	})
+}
+
+// checkShutdownFlagsAllFirst (C02, C03): in the shutdown function a loop over
+// the collected instances stores the no-restart flag for every element, and
+// that loop precedes the stop phase (so no instance can be relaunched by its
+// policy while the others are still being stopped).
+func (s *Sel) checkShutdownFlagsAllFirst(c *Ctx, ruleID string) {
+	p := c.P
+	rule := c.Rule(ruleID, "in the shutdown function, every path to the call that starts the stop phase first completes a loop over the same collection of instances whose every iteration stores the no-restart flag (all instances are marked before the first one is stopped)")
+	shut := s.shutdownFn()
+	c.Touch(shut)
+	flag := p.Deep(s.flagStoreSite())
+	stopDeep := p.Deep(s.stopCoreCall(true, false))
+	n := 0
+	AllInstrs(shut, func(in ssa.Instruction) {
+		call, ok := in.(*ssa.Call)
+		if !ok || !stopDeep.MayAt(call) {
+			return
+		}
+		n++
+		colls := collectionsAt(call)
+		var heads []*ssa.If
+		for _, l := range RangeLoops(shut) {
+			for _, cv := range colls {
+				if sameColl(l.Coll, cv) && l.bodyAlways(flag) && !stopDeep.mayInRegion(l) {
+					heads = append(heads, l.If)
+				}
+			}
+		}
+		ok2 := false
+		if len(heads) > 0 {
+			vis := Reach(Entry(shut), func(x ssa.Instruction) bool {
+				for _, h := range heads {
+					if x == ssa.Instruction(h) {
+						return true
+					}
+				}
+				return false
+			}, nil)
+			ok2 = !vis[call]
+		}
+		c.Check(ok2, rule, p.FuncKey(shut), p.InstrPos(call), "all instances are flagged before the stop phase", "the stop phase can start before every collected instance carries the no-restart flag: an instance whose command exits while others are still being stopped is relaunched by its restart policy after the shutdown was requested")
+	})
+	if n == 0 {
+		c.Bad(rule, p.FuncKey(shut)+":no-stop-phase", FirstPos(p, shut), "the shutdown function does not stop the instances")
+	}
+}
+
+// mayInRegion: some instruction in the loop body may perform the site.
+func (d *Deep) mayInRegion(l RangeLoop) bool {
+	for b := range DominatedBlocks(l.Body) {
+		for _, in := range b.Instrs {
+			if d.MayAt(in) {
+				return true
+			}
+		}
+	}
+	return false
 }
